@@ -303,7 +303,7 @@ fn expression() -> impl Strategy<Value = Expr> {
     })
 }
 
-fn exprs() -> impl Strategy<Value = Vec<Expr>> {
+pub fn exprs() -> impl Strategy<Value = Vec<Expr>> {
     prop_oneof![5 => expression().prop_map(|e| vec![e]), 1 => prop::collection::vec(expression(), 2..=3)]
 }
 
